@@ -50,6 +50,10 @@ type TSpec struct {
 	Frac  int    `json:"frac"` // fractional digits 0..9
 	Zone  int    `json:"zone"` // minutes east of UTC (Fmt 2)
 	Delay int64  `json:"delay"`
+	// Extra: further fractional digits after the ninth (Frac == 9 only).  Go's time formats,
+	// which the proxy's formats are, read any number of fractional digits and ignore what lies
+	// beyond nanoseconds.
+	Extra string `json:"extra,omitempty"`
 	// AbsYear != 0: the text is an absolute calendar time in that year (0001..1700 or 2300..9999),
 	// i.e. centuries away from any request time; its distance mostly does not fit an int64
 	// duration (time.Sub saturates).  Never re-rendered; always outside every drift.
@@ -133,6 +137,9 @@ func (s TSpec) render(tn int64) string {
 	out := fmt.Sprintf("%04d-%02d-%02d%s%02d:%02d:%02d", t.Year(), int(t.Month()), t.Day(), sep, t.Hour(), t.Minute(), t.Second())
 	if s.Frac > 0 {
 		out += "." + fmt.Sprintf("%09d", t.Nanosecond())[:s.Frac]
+		if s.Frac == 9 {
+			out += s.Extra
+		}
 	}
 	switch s.Fmt {
 	case 1:
@@ -369,6 +376,10 @@ func genDoc(t *rapid.T, serial int, o docOpts) Line {
 				}
 			}
 			sp.Frac = rapid.SampledFrom(fracs).Draw(t, "frac")
+			if sp.Frac == 9 && rapid.IntRange(0, 5).Draw(t, "extrafrac") == 5 {
+				sp.Extra = rapid.StringMatching(`[0-9]{1,14}`).Draw(t, "extradigits")
+				w.flag("time-more-than-9-fraction-digits")
+			}
 			txt := sp.render(sp.docTime(o.req))
 			sp.Off, sp.Len = len(w.b)+1, len(txt)
 			w.b = append(w.b, '"')
